@@ -175,7 +175,7 @@ static Case gen_c16()
   // start from the valid encoding of a random 16-byte value, then mutate structurally
   bytes key = g::raw(16);
   std::string s = ref::b64_encode(key.data(), 16);
-  long m = g::range(0, 16);
+  long m = g::range(0, 17);
   auto rnd_alpha = [&]() { return ALPHA[g::range(0, 64)]; };
   switch (m)
   {
@@ -244,6 +244,13 @@ static Case gen_c16()
   case 13: // 24 chars, single trailing '=' and 23 alphabet chars
     s = s.substr(0, 22) + rnd_alpha() + "=";
     break;
+  case 14: // one to three stray alphabet characters inserted before the padding (length 25..27, still ends in "==")
+  {
+    long n = g::range(1, 4);
+    for (long i = 0; i < n; i++)
+      s.insert((size_t)g::range(0, 23), 1, rnd_alpha());
+    break;
+  }
   default: // several random edits
   {
     long n = g::range(1, 4);
@@ -290,7 +297,7 @@ static void fixed_c16(Ctx &ctx)
   const char *cands[] = {
       "ABEiM0RVZneImaq7zN3u/w==", "ABEiM0RVZneImaq7zN3u/wAA", "ABEiM0RVZneImaq7zN3u/wA=", "ABEiM0RVZneImaq7zN3u/===", "ABEiM0RVZneImaq7zN3u====",
       "Z8Zpc1HSuwpzbqr8vvjRg==", "", "=", "====", "========================", "AAAAAAAAAAAAAAAAAAAAAA==", "//////////////////////==", "/////////////////////w==",
-      "ABEiM0RVZneImaq7zN3u/w==AAAA", "ABEiM0RVZneImaq7zN3u_w==", "ABEiM0RVZneImaq7zN3u-w==", "ABEiM0RVZneImaq7zN3u w==", "ABEiM0RV\nneImaq7zN3u/w=="};
+      "ABEiM0RVZneImaq7zN3u/w==AAAA", "QABEiM0RVZneImaq7zN3u/w==", "QQABEiM0RVZneImaq7zN3u/w==", "QQQABEiM0RVZneImaq7zN3u/w==", "ABEiM0RVZneQImaq7zN3u/w==", "BEiM0RVZneImaq7zN3u/w==", "EiM0RVZneImaq7zN3u/w==", "ABEiM0RVZneImaq7zN3u_w==", "ABEiM0RVZneImaq7zN3u-w==", "ABEiM0RVZneImaq7zN3u w==", "ABEiM0RV\nneImaq7zN3u/w=="};
   for (const char *s : cands)
   {
     if (!mine(ctx, i++))
